@@ -23,6 +23,8 @@ type ProcCase struct {
 	DashAt int    `json:"dash_at"`
 	// Out: "stdout", "ofile" (-o path), "odash" (-o -)
 	Out string `json:"out"`
+	// StaleOut: with Out == "ofile" the output file already exists and holds this many bytes of old content.
+	StaleOut int `json:"stale_out,omitempty"`
 	// Fault: "", "dir" (a directory among the arguments: open succeeds, read fails with EISDIR),
 	// "missing" (a path that does not exist), "stdin-dir" (standard input is a directory).
 	Fault   string `json:"fault,omitempty"`
@@ -105,10 +107,17 @@ func ExecProc(bin, dir string, pc *ProcCase) (Outcome, string, error) {
 		args = append(args, faultPath(dir, pc.Fault))
 	}
 	outPath := ""
+	stale := ""
 	switch pc.Out {
 	case "ofile":
 		outPath = filepath.Join(dir, "out.sql")
 		args = append([]string{"-o", outPath}, args...)
+		if pc.StaleOut > 0 {
+			stale = strings.Repeat("-- stale content of an earlier run;\n", pc.StaleOut/36+1)
+			if err := os.WriteFile(outPath, []byte(stale), 0o644); err != nil {
+				return Outcome{}, "", err
+			}
+		}
 	case "odash":
 		args = append([]string{"--output", "-"}, args...)
 	}
@@ -152,6 +161,11 @@ func ExecProc(bin, dir string, pc *ProcCase) (Outcome, string, error) {
 		b, err := os.ReadFile(outPath)
 		if err == nil {
 			o.Stdout = string(b)
+			if stale != "" && o.Stdout == stale {
+				// the tool gave up before touching the destination (e.g. an input could not be opened):
+				// an untouched existing file means "nothing written"
+				o.Stdout = ""
+			}
 		}
 		if so.Len() > 0 {
 			// with -o FILE nothing belongs on stdout; keep it visible to the oracle
@@ -202,6 +216,10 @@ func GenProcCase(r *prng.Rand, fk FaultKinds) *ProcCase {
 		}
 	}
 	pc.Out = []string{"stdout", "stdout", "ofile", "odash"}[r.Intn(4)]
+	if pc.Out == "ofile" && r.Chance(1, 2) {
+		pc.StaleOut = []int{10, 3000, 100000}[r.Intn(3)]
+		fk["proc:output-file-exists-with-old-content"]++
+	}
 	if r.Chance(1, 4) {
 		switch {
 		case pc.Mode == "stdin" || pc.Mode == "dash":
